@@ -477,7 +477,9 @@ func (rs *rootSet) walk(v ssa.Value, depth int) {
 		if x.Op == token.MUL { // load
 			switch a := x.X.(type) {
 			case *ssa.Alloc:
-				// local spilled to memory: all stores into it
+				// local spilled to memory: all stores into it (the variable itself counts as passed through:
+				// a by-value copy `h2 := h` derives from h)
+				rs.seen[a] = true
 				n := 0
 				for _, ref := range *a.Referrers() {
 					if st, ok := ref.(*ssa.Store); ok && st.Addr == a {
